@@ -38,6 +38,18 @@ def build(rng, tier):
             ops += [f"eng runin {inst} {c}", f"eng dump {inst}"]
             union = {r: list(inp.get(r, [])) + list(extra.get(r, [])) for r in range(len(p["rels"]))}
             cases.append(engcheck.Case(pid, inst, ops, {"inp": inp, "union": union, "kind": "pools", "abc": (a, b, c)}))
+    # (1b) many rows, so that worker threads with an index beyond the constructing pool's size insert into the per-thread shards;
+    # the relation is scanned without bound columns (no-index) and first becomes a head in a RECURSIVE stratum fed by input facts
+    stress = {"rels": [{"arity": 2}, {"arity": 2}],
+              "rules": [{"heads": [(0, [("var", 0), ("add", ("var", 1), 1)])], "body": [("cl", 0, [("v", 0), ("v", 1)], []), ("if", ("lt", ("var", 1), 4))]},
+                        {"heads": [(1, [("var", 0), ("var", 1)])], "body": [("cl", 0, [("v", 0), ("v", 1)], [])]}]}
+    progs["ystress"] = stress; PROGS["ystress"] = stress
+    mods.append(("ystress", eng.rs_module("ystress", stress, macro="ascent_par")))
+    sinp = {0: [(x, 0) for x in range(1500)]}
+    for j, (a, b) in enumerate([(1, 4), (2, 8), (1, 16), (4, 4), (8, 2)] if tier == "quick" else [(a, b) for a in POOLS for b in POOLS]):
+        inst = f"ystress_{j}"
+        ops = [f"eng new {inst} ystress par {a}"] + engcheck.load_ops(inst, sinp) + [f"eng runin {inst} {b}", f"eng dump {inst}", f"eng runin {inst} {b}", f"eng dump {inst}"]
+        cases.append(engcheck.Case("ystress", inst, ops, {"inp": sinp, "union": sinp, "kind": "pools-stress", "abc": (a, b, b), "no_model": True}))
     # (2) several instances, of the same and of different generated types, serial and parallel, running at the same time
     pids = list(progs)
     for g in range(6 if tier == "quick" else 40):
@@ -82,8 +94,13 @@ def oracle(c, p, out):
     return None
 
 
+def canon(c, out):
+    if c.meta.get("no_model"): return ["<too large for the Lean model: judged by the oracle>" for _ in out]
+    return out
+
+
 def check(tier, replay=None):
     return engcheck.run_property("C20", tier, modules=["AscentVerif.Props.C20"], theorems=THEOREMS, trusted=TRUSTED, group="c20",
-                                 build=build, oracle=oracle, nbins=1, what="instances across pools and concurrent instances",
+                                 build=build, oracle=oracle, canon=canon, nbins=1, what="instances across pools and concurrent instances",
                                  rule="parallel programs constructed / run / re-run (after pushes) in pools of different sizes (a,b,c) in {1,2,3,8,16}^3; groups of instances of the "
                                       "same and of different generated types run at the same time on OS threads; every instance must compute what it computes alone")
